@@ -43,9 +43,10 @@ def observe(text, charset):
                 continue
             if s in ('AK4', 'IK4') and len(e) >= 4 and (e[3] in composite_values):
                 e = e[:3]
-            if s in ('AK1', 'AK2', 'IK2') and sub_t != ':':
-                # a control number / identifier written as a composite is echoed with the document's own component separator
-                e = [x.replace(sub_t, ':') if isinstance(x, str) else x for x in e]
+            if s in ('AK1', 'AK2', 'IK2'):
+                # a control number / identifier written as a composite is echoed with the document's own component separator, or (when that is the
+                # acknowledgement's ':') without it: compare without either
+                e = [x.replace(sub_t, '').replace(':', '') if isinstance(x, str) else x for x in e]
             body.append((s, e))
         if composite_values:
             # an echo that holds ':' is left out of the acknowledgement altogether; compare such lines without AK404
